@@ -62,9 +62,19 @@ pub fn frame_value(n: f64, k: i32) -> f64 {
     }
 }
 
+/// frame 2000 ("ULP slivers"): x = 1 + int * 2^-52, y = int  (f64 only)
+pub const ULP_FRAME: i32 = 2000;
+pub fn frame_xy(p: P, k: i32) -> (f64, f64) {
+    if k == ULP_FRAME {
+        (1.0 + p.0 as f64 * f64::EPSILON, p.1 as f64)
+    } else {
+        (frame_value(p.0 as f64, k), frame_value(p.1 as f64, k))
+    }
+}
+
 /// value of a named operand: integer geometry in frame k
 pub fn to_geo<F: Fl>(mp: &IMp, k: i32) -> MultiPolygon<F> {
-    let ls = |r: &Vec<P>| LineString(r.iter().map(|p| Coord { x: F::from_f64(frame_value(p.0 as f64, k)), y: F::from_f64(frame_value(p.1 as f64, k)) }).collect());
+    let ls = |r: &Vec<P>| LineString(r.iter().map(|p| { let (x, y) = frame_xy(*p, k); Coord { x: F::from_f64(x), y: F::from_f64(y) } }).collect());
     MultiPolygon(mp.iter().map(|p| Polygon::new(ls(&p.ext), p.holes.iter().map(ls).collect())).collect())
 }
 
@@ -89,7 +99,22 @@ pub fn fnv(h: &mut u64, x: u64) {
 /// `mag`: magnitude of the input coordinates in the integer frame (>= 1).
 pub fn snap<F: Fl>(mp: &MultiPolygon<F>, k: i32, mag: f64) -> Snapped {
     let mut h: u64 = 0xcbf2_9ce4_8422_2325;
+    let mut axis = 0u8;
     let mut one = |c: F, h: &mut u64| -> (i64, i64) {
+        axis ^= 1; // 1 = x, 0 = y (coordinates are visited x, y, x, y, ...)
+        if k == ULP_FRAME {
+            let raw = c.to_f64();
+            fnv(h, raw.to_bits());
+            if !raw.is_finite() {
+                return (COORD_CAP as i64, DEV_CAP);
+            }
+            let n = if axis == 1 { ((raw - 1.0) / f64::EPSILON).round() } else { raw.round() };
+            let back = if axis == 1 { 1.0 + n * f64::EPSILON } else { n };
+            if n.abs() > COORD_CAP {
+                return (COORD_CAP as i64, DEV_CAP);
+            }
+            return (n as i64, if back == raw { 0 } else { 1 });
+        }
         if k >= 1000 {
             // non-representable frame: a coordinate is exact iff it is bit-identical to the
             // presentation of an integer
